@@ -271,4 +271,13 @@ theorem create_spec {opts : List Opt} {g : G} (h : create opts = some g) :
     cases opts[i].defval <;> rfl
   · cases h
 
+/-- `esl_getopts_Reuse` restores exactly the state `esl_getopts_Create` produced, whatever happened in between -/
+theorem reuse_eq_create {opts : List Opt} {g0 g : G} (h : create opts = some g0) (hg : g.opts = opts) : reuse g = g0 := by
+  unfold create at h
+  split at h
+  · injection h with h
+    subst h
+    simp [reuse, hg]
+  · cases h
+
 end EaselModel.Getopts
